@@ -647,6 +647,10 @@ FunGlobal(s, fa) ==
   THEN (IF fa.p = "" /\ fa.s \notin {"true", "false"} /\ PkgHas(s, s.pkg, fa.s) THEN NameFun(s.pkgs[s.pkg].syms[fa.s], fa)
         ELSE IF fa.p \notin {"", ":"} /\ PkgHas(s, fa.p, fa.s) THEN NameFun(s.pkgs[fa.p].syms[fa.s], fa) ELSE VNil)
   ELSE fa
+\* an unqualified symbol given as a function designator that is not bound in the current package: the unbound-symbol
+\* error is the symbol's own (it carries the position the symbol was written at, when it has one)
+UnboundDesig(s, fa) == fa.t = "sym" /\ fa.p = "" /\ fa.s \notin {"true", "false"} /\ ~PkgHas(s, s.pkg, fa.s) /\ fa.i # 0
+DFail(s, env, fa) == IF UnboundDesig(s, fa) THEN LET e == Fail(s, env) IN [e EXCEPT !.ctl.v.i = fa.i] ELSE Fail(s, env)
 \* formal argument list of a builtin as far as arity describes it (the names are immaterial)
 BuiltinFormalsV(name) ==
   LET a == Arity(name) IN
@@ -805,7 +809,7 @@ DoCall(s) ==
                          ELSE IF fa.p \notin {"", ":"} /\ PkgHas(s, fa.p, fa.s) THEN NameFun(s.pkgs[fa.p].syms[fa.s], fa) ELSE VNil)
                    ELSE fa IN
          IF typed /\ ~SeqSpec(args[1]) THEN Fail(s, env)
-         ELSE IF ~IsFun(fv) \/ (f.s \notin {"any?", "all?"} /\ FunKind(s, fv) # "fun") THEN Fail(s, env)
+         ELSE IF ~IsFun(fv) \/ (f.s \notin {"any?", "all?"} /\ FunKind(s, fv) # "fun") THEN DFail(s, env, fa)
          ELSE IF ~IsSeq(lis) THEN Fail(s, env)
          ELSE [s EXCEPT !.k = Append(@, [t |-> "hof", name |-> f.s, f |-> fv, spec |-> IF typed THEN args[1] ELSE VQSym("list"), items |-> IF f.s = "foldr" THEN [j \in 1..Len(lis.c) |-> lis.c[Len(lis.c) + 1 - j]] ELSE lis.c,
                                          j |-> 0, acc |-> IF f.s \in {"foldl", "foldr"} THEN args[2] ELSE VNil, out |-> <<>>, env |-> env]),
@@ -826,10 +830,10 @@ DoCall(s) ==
          \* less(element j, element j-1).  The function is applied to the elements (to their keys) as VALUES.
          LET fv == FunGlobal(s, args[1])  lis == args[2]
              kv == IF n >= 3 THEN FunGlobal(s, args[3]) ELSE VNil IN
-         IF ~IsFun(fv) THEN Fail(s, env)
+         IF ~IsFun(fv) THEN DFail(s, env, args[1])
          ELSE IF ~IsSeq(lis) THEN Fail(s, env)
          ELSE IF n > 3 THEN Fail(s, env)
-         ELSE IF n = 3 /\ ~IsFun(kv) THEN Fail(s, env)
+         ELSE IF n = 3 /\ ~IsFun(kv) THEN DFail(s, env, args[3])
          ELSE IF Len(lis.c) > 20 THEN [s EXCEPT !.dropped = TRUE]          \* outside the modelled algorithm
          ELSE [s EXCEPT !.k = Append(@, [t |-> "sort", name |-> "stable-sort", f |-> fv, key |-> kv, items |-> lis.c, box |-> lis,
                                          i |-> 2, j |-> 2, phase |-> "start", ka |-> VNil, kb |-> VNil, err |-> VNil,
@@ -881,7 +885,7 @@ DoCall(s) ==
                          ELSE IF fa.p \notin {"", ":"} /\ PkgHas(s, fa.p, fa.s) THEN NameFun(s.pkgs[fa.p].syms[fa.s], fa) ELSE VNil)
                    ELSE fa
              rest == Rest(args) IN
-         IF ~IsFun(fv) \/ FunKind(s, fv) # "fun" THEN Fail(s, env)
+         IF ~IsFun(fv) \/ FunKind(s, fv) # "fun" THEN DFail(s, env, fa)
          ELSE IF f.s # "funcall" /\ (Len(rest) = 0 \/ Top(rest).t # "list") THEN Fail(s, env)
          ELSE LET fargs == IF f.s = "funcall" THEN rest ELSE Pop(rest) \o Top(rest).c IN
               \* the builtin's own frame enters its terminal state, then env.FunCall
@@ -1237,6 +1241,10 @@ OpStep(s) ==
 \* ------------------------------------------------------------------ return
 \* a value (or error, mark, macro expansion) returns to the topmost activation
 CanReturn(s) == s.ctl.mode = "ret"
+\* env.ErrorAssociate on the way out of eval / evalSExpr: an error that carries no position yet (it was raised while a
+\* form without a position of its own was current - a call form built by thread-first / thread-last, say) takes the
+\* location the environment has at that moment
+Assoc(v, loc) == IF IsErr(v) /\ v.i = 0 THEN [v EXCEPT !.i = loc] ELSE v
 DoReturn(s) ==
   LET v == s.ctl.v  c == Top(s.k) IN
   CASE c.t = "top" ->
@@ -1247,9 +1255,9 @@ DoReturn(s) ==
          IF v.t = "macexp"
          THEN IF c.md + 1 > s.cfg.maxmacro THEN Fail([s EXCEPT !.k = Pop(@)], c.env)
               ELSE [s EXCEPT !.ctl = [mode |-> "reeval", e |-> v.c[1], env |-> c.env, md |-> c.md + 1, pushed |-> TRUE]]
-         ELSE [s EXCEPT !.k = Pop(@)]
+         ELSE [s EXCEPT !.k = Pop(@), !.ctl = Ret(Assoc(v, s.envs[c.env].loc))]
     [] c.t = "cells" ->
-         IF IsErr(v) THEN LeaveCells(s, c)
+         IF IsErr(v) THEN [LeaveCells(s, c) EXCEPT !.ctl = Ret(Assoc(v, c.loc))]
          ELSE [s EXCEPT !.k = SetTop(@, [c EXCEPT !.vals = Append(@, v)]), !.ctl = [mode |-> "cellstep"]]
     [] c.t = "hof" ->
          IF IsErr(v) THEN [s EXCEPT !.k = Pop(@)]
